@@ -6,10 +6,11 @@ EXTENDS National, Json, IOUtils
 Trace == ndJsonDeserialize(IOEnv.TRACE_FILE)
 VARIABLES l, nrej
 IsStrRet(r) == r.k = "ret" /\ r.t = "str"
-N1(e) == IsStrRet(e.r) <=> AcceptN(e.m, e.c)
-N0(e) == e.m \in Known
-ClauseNames == <<"N0", "N1">>
-Clauses(e) == [N0 |-> N0(e), N1 |-> N1(e)]
+N1(e) == e.m \in Known => (IsStrRet(e.r) <=> AcceptN(e.m, e.c))
+N2(e) == e.m \in Necessary => (IsStrRet(e.r) => NecessaryN(e.m, e.c))
+N0(e) == e.m \in Known \cup Necessary
+ClauseNames == <<"N0", "N1", "N2">>
+Clauses(e) == [N0 |-> N0(e), N1 |-> N1(e), N2 |-> N2(e)]
 Failing(e) == LET c == Clauses(e) IN SelectSeq(ClauseNames, LAMBDA n : ~c[n])
 Init == l = 1 /\ nrej = 0
 Step == /\ l <= Len(Trace)
